@@ -35,6 +35,7 @@ import (
 	"go.uber.org/zap"
 
 	"github.com/mimiro-io/datahub/internal/conf"
+	"github.com/mimiro-io/datahub/internal/verifhook"
 )
 
 type qresult struct {
@@ -1719,16 +1720,19 @@ func (s *Store) ExecuteTransaction(transaction *Transaction) error {
 		updateCountsPerDataset[k] = newItems
 	}
 
+	verifhook.Point("ExecuteTransaction:before-commitIDTxn")
 	err := s.commitIDTxn()
 	if err != nil {
 		return err
 	}
 
+	verifhook.Point("ExecuteTransaction:before-txnCommit")
 	err = txn.Commit()
 	if err != nil {
 		return err
 	}
 
+	verifhook.Point("ExecuteTransaction:after-txnCommit")
 	// update the txn counts
 	for k, v := range updateCountsPerDataset {
 		ds, ok := s.datasets.Load(k)
@@ -1742,5 +1746,6 @@ func (s *Store) ExecuteTransaction(transaction *Transaction) error {
 		}
 	}
 
+	verifhook.Point("ExecuteTransaction:after-updateDataset")
 	return nil
 }
